@@ -567,8 +567,10 @@ class Graph:
     pass
 
 
-def extract(build, exempt=None):
-    """-> Graph with .nodes (sorted names on cycles), .edges {(a,b): kind}, .guard {name: (tag, limit)}, .rank {name:int},
+def extract(build, exempt=None, deny=()):
+    """deny: functions whose source-idiom match is NOT accepted as a guard (tools/gen/cgguard.py found no control-flow
+    certificate for it in the IR); they can still be covered by a written exemption.
+    -> Graph with .nodes (sorted names on cycles), .edges {(a,b): kind}, .guard {name: (tag, limit)}, .rank {name:int},
     .bad (list of unguarded cycles as lists of names), plus bookkeeping for notes/evidence."""
     exempt = EXEMPT_INDIRECT if exempt is None else exempt
     irp = emit_ir(build)
@@ -651,10 +653,14 @@ def extract(build, exempt=None):
         raise ExtractError("JANET_RECURSION_GUARD not found")
     g.guard = {}
     g.nobody = []
+    g.denied = []
     for nm in g.nodes:
         body = bodies.get(nm)
         if body is None:
             g.nobody.append(nm)
+            continue
+        if nm in deny:
+            g.denied.append(nm)
             continue
         for tag, rx, lim in GUARD_IDIOMS:
             if re.search(rx, body):
@@ -698,7 +704,7 @@ def extract(build, exempt=None):
                 failed_ind.append(ra)
     if failed_ind:
         # the exemption of those indirect edges no longer holds: redo with the edges kept
-        g2 = extract(build, exempt=[e for e in exempt if e[0] not in failed_ind])
+        g2 = extract(build, exempt=[e for e in exempt if e[0] not in failed_ind], deny=deny)
         g2.exemption_failures = g.exemption_failures + g2.exemption_failures
         return g2
     for nm in g.bounded:
